@@ -399,3 +399,56 @@ func detectRenames(pkgs []*packages.Package) []string {
 	sort.Strings(notes)
 	return notes
 }
+
+var refTypesCache map[string]refType
+
+// addedField: fv is a field that the reference tree's struct of the same name does not have,
+// in a struct that still has every reference field (a pure addition: a statistics counter, a
+// debugging aid). Rules that whitelist the writes of a function ignore stores to such fields:
+// they cannot be what the rule is about.
+func addedField(fv *types.Var) bool {
+	if fv == nil || !fv.IsField() || fv.Pkg() == nil {
+		return false
+	}
+	if refTypesCache == nil {
+		refTypesCache = loadRefTypes()
+	}
+	for name, rt := range refTypesCache {
+		if len(rt.Fields) == 0 || !strings.HasPrefix(name, fv.Pkg().Path()+".") {
+			continue
+		}
+		tn, ok := fv.Pkg().Scope().Lookup(name[len(fv.Pkg().Path())+1:]).(*types.TypeName)
+		if !ok {
+			continue
+		}
+		st, ok := tn.Type().Underlying().(*types.Struct)
+		if !ok {
+			continue
+		}
+		mine := false
+		cur := map[string]bool{}
+		for i := 0; i < st.NumFields(); i++ {
+			cur[st.Field(i).Name()] = true
+			if st.Field(i) == fv {
+				mine = true
+			}
+		}
+		if !mine {
+			continue
+		}
+		if st.NumFields() <= len(rt.Fields) {
+			return false
+		}
+		inRef := false
+		for _, f := range rt.Fields {
+			if !cur[f[0]] {
+				return false // a reference field is gone: not a pure addition
+			}
+			if f[0] == fv.Name() {
+				inRef = true
+			}
+		}
+		return !inRef
+	}
+	return false
+}
